@@ -218,11 +218,21 @@ pub fn t_multisig() -> BS<Vec<u8>> {
         .prop_map(move |(m, n, right_n, keys, form, last)| {
             let k = keys.len().min(16) as u8;
             let n = if right_n { k } else { n };
-            let mut s = vec![num(m)];
+            // the two number slots hold OP_n opcodes; sometimes (selected by bits of `last`'s generator sibling `m` / `n`
+            // parity with `form`) a slot holds the number as pushed DATA instead, which is not the template
+            let slot = |v: u8, sel: u8| -> Vec<u8> {
+                match sel % 16 {
+                    1 => vec![0x01, v],
+                    2 => vec![0x02, v, 0x00],
+                    3 => vec![0x4c, 0x01, v],
+                    _ => vec![num(v)],
+                }
+            };
+            let mut s = slot(m, form.wrapping_mul(7).wrapping_add(m));
             for (i, key) in keys.iter().enumerate() {
                 s.extend(push_form(key, if i == 0 { form } else { 0 }));
             }
-            s.push(num(n));
+            s.extend(slot(n, form.wrapping_mul(5).wrapping_add(n).wrapping_add(3)));
             s.push(last);
             s
         }).boxed()
